@@ -4,6 +4,8 @@
 package main
 
 import (
+	"crypto/tls"
+	"net"
 	"encoding/json"
 	"fmt"
 	"io"
@@ -65,25 +67,60 @@ func init() {
 					pr, pw := ioPipePair()
 					io.Input, io.Output = pr, pw
 				}
+				if hs, ok := ss[0].(*server.HttpServer); ok && strings.HasSuffix(hs.Address.Host, ":0") {
+					// the http server does not tell which port it got: give it a free one
+					hs.Address.Host = fmt.Sprintf("%s:%d", strings.TrimSuffix(hs.Address.Host, ":0"), freePort())
+				}
 				if err := ss[0].Startup(server.Channels{&echoChannel{hits: new(int)}}); err != nil {
 					return append(out, TW("starterr"))
 				}
 				time.Sleep(10 * time.Millisecond)
 				sec := "na"
 				bound := ""
+				// what the endpoint speaks on the wire: a TLS handshake completes, or a plaintext request is answered
+				probe := func(hostport string) string {
+					d := &net.Dialer{Timeout: time.Second}
+					if c, err := tls.DialWithDialer(d, "tcp", hostport, &tls.Config{InsecureSkipVerify: true}); err == nil {
+						c.Close()
+						return "tls"
+					}
+					c, err := net.DialTimeout("tcp", hostport, time.Second)
+					if err != nil {
+						return "none"
+					}
+					defer c.Close()
+					c.Write([]byte("GET / HTTP/1.0\r\n\r\n"))
+					c.SetReadDeadline(time.Now().Add(time.Second))
+					b := make([]byte, 5)
+					if n, _ := c.Read(b); n > 0 && b[0] != 0x15 {
+						return "plain"
+					}
+					return "silent"
+				}
+				wire := ""
 				switch v := ss[0].(type) {
 				case *server.SocketServer:
 					sec = fmt.Sprint(b2i(v.VerifSecure()))
 					bound = v.VerifAddr()
+					if !strings.Contains(text, "unix") {
+						wire = probe(bound)
+						if wire == "silent" {
+							wire = "plain" // a plain socket endpoint waits for the client's first message
+						}
+					}
 				case *server.DnsServer:
 					sec = fmt.Sprint(b2i(v.VerifSecure()))
 				case *server.HttpServer:
 					sec = fmt.Sprint(b2i(v.VerifSecure()))
+					wire = probe(v.Address.Host)
 				case *server.IoServer:
 					sec = "na"
 				}
 				func() { defer func() { recover() }(); ss[0].Shutdown() }()
 				out = append(out, TW("secure"), TW(sec))
+				if wire != "" {
+					out = append(out, TW("wire"), TW(wire))
+				}
 				if bound != "" {
 					out = append(out, TW("bound"), TB([]byte(bound)))
 				}
